@@ -70,6 +70,7 @@ def analyse(case, res):
             break
     slow = too_slow_logs(res)
     connected = bool(scn.get("conns"))
+    res._t0 = t0
     # On a clock with non-dyadic periods (0.1, 0.3) float rounding alone can make a step end 1e-14 s "late";
     # such reports are counted as float noise, not judged (the dyadic cases carry the claim for jitter = 0).
     noise = []
@@ -107,7 +108,7 @@ def analyse(case, res):
                 break
     if durs_zero and slow and not run.get("rt_strict"):
         behind = slow[0][1]
-        fails.append(Failure("C17.false_too_slow", sig_slow(jitter, connected, case, res),
+        fails.append(Failure("C17.false_too_slow", sig_slow(jitter, connected, case, res, at=slow[0][0]),
                              f"every simulator answers instantly (virtual durations 0) but mosaik reports: {behind[:120]}"))
     # external events
     for x in case.get("externals", []):
@@ -162,7 +163,31 @@ def analyse(case, res):
     return fails, nontrivial, extra
 
 
-def sig_slow(jitter, connected, case=None, res=None):
+def boundary_release(case, res, t0, at=None):
+    """The step that was reported began at its deadline (within the timer latencies that were applied, i.e. it
+    was released by a polling wake-up there) and ended less than 1e-6 s after it: the lateness comes from
+    mosaik's period-granular polling (waits that end between two wake-ups are noticed up to one period late, such
+    delays add up along a chain of connected simulators), not from the simulators."""
+    scn = case["scenario"]
+    period = scn["run"]["rt_factor"] * scn["world"].get("time_resolution", 1.0)
+    begins = [(res.trace.t[i] - t0, e) for i, e in enumerate(res.trace) if e[0] == "step_begin"]
+    ends = [(res.trace.t[i] - t0, e) for i, e in enumerate(res.trace) if e[0] == "step_end"]
+    if at is not None:
+        ends = [x for x in ends if x[0] <= at - t0 + 1e-12]
+    if not begins or not ends:
+        return False
+    end_at, e_end = ends[-1]
+    b = [x for x in begins if x[1][1] == e_end[1] and x[0] <= end_at][-1]
+    began_at, t = b[0], b[1][2]
+    jit = sum(case["schedule"].get("jitter", [])[:getattr(res, "jitter_used", 0)])
+    late = end_at - period * (t + 1)
+    return 0 <= late < 1e-6 + jit and began_at >= period * (t + 1) - 1e-6 - jit and jit < 0.99 * period
+
+
+def sig_slow(jitter, connected, case=None, res=None, at=None):
+    if case is not None and res is not None and connected and getattr(res, "_t0", None) is not None \
+            and boundary_release(case, res, res._t0, at):
+        return "C17.false_too_slow|released_by_poll_exactly_at_deadline"
     if jitter and case is not None:
         scn = case["scenario"]
         period = scn["run"]["rt_factor"] * scn["world"].get("time_resolution", 1.0)
@@ -225,6 +250,16 @@ def shard(prop, tier, seed, shard, nshards):
                 ext.append({"at": at, "sim": "E", "event": int(at // period) + 1 + draw(st.integers(0, 3))})
         c = build(n, rtf, tres, steps, durs, draw(st.booleans()), until, strict=draw(st.integers(0, 3)) == 0,
                   jitter=jit, externals=ext)
+        # external events may also be addressed to a time-based simulator (between its own steps)
+        if ext and draw(st.booleans()):
+            tgt = draw(st.sampled_from([sm["sid"] for sm in c["scenario"]["sims"] if sm["sid"] != "E"]))
+            for sm in c["scenario"]["sims"]:
+                if sm["sid"] == tgt:
+                    sm["set_events"] = True
+                    sm["beh"]["steps"] = [draw(st.sampled_from([2, 3, 4]))]
+            for x in c["externals"]:
+                x["sim"] = tgt
+            c["scenario"]["until"] = until = max(until, 6)
         # ungated simulators (immediate, synchronous replies like the repository's test simulators)
         if mode == "zero" and draw(st.integers(0, 2)) == 0:
             for sm in c["scenario"]["sims"]:
